@@ -11,6 +11,7 @@ import Usid.Driver.Reshape
 import Usid.Driver.Slice
 import Usid.Driver.MainW
 import Usid.Driver.SliceTo
+import Usid.Driver.Reduce
 /-! Line-protocol driver over the hand-written models: one JSON request per line on stdin,
     one JSON response per line on stdout. -/
 namespace Usid.Driver
@@ -30,7 +31,8 @@ def handlers : List (String × (Json → R Json)) := [
   ("rs.to_nd", hRsToNd), ("rs.wrapper", hRsWrapper), ("rs.from_nd", hRsFromNd),
   ("slice.nd", hSliceNd), ("slice.2d", hSlice2d),
   ("main.write", hMainWrite),
-  ("sliceto.run", hSliceTo)
+  ("sliceto.run", hSliceTo),
+  ("reduce.run", hReduce)
 ]
 
 def respond (tbl : List (String × (Json → R Json))) (line : String) : String :=
